@@ -10,6 +10,16 @@ Open Scope N_scope.
 
 Definition nis (m : msg) : bool := match m_body m with InstallSnap _ _ _ => false | _ => true end.
 
+(* the virtual image of an InstallSnapshot (li, lt): a heartbeat claiming (li, lt) as previous entry and li as leaderCommit -
+   what the snapshot-free invariants say about such a heartbeat is exactly the provenance of the snapshot *)
+Definition img_body (b : mbody) : mbody := match b with InstallSnap li lt _ => AppEnts li lt li None | _ => b end.
+Definition img (m : msg) : msg :=
+  {| m_term := m_term m; m_from := m_from m; m_to := m_to m; m_fromg := m_fromg m; m_tog := m_tog m; m_epoch := m_epoch m;
+     m_body := img_body (m_body m) |}.
+
+Lemma img_nis m : nis m = true -> img m = m.
+Proof. destruct m as [a b c d e f body]. unfold nis, img. simpl. destruct body; simpl; intros; try reflexivity; discriminate. Qed.
+
 Definition vp (C : list entry) (p : pstate) : pstate :=
   {| p_term := p_term p; p_vote := p_vote p; p_guid := p_guid p; p_guids := p_guids p; p_log := C ++ p_log p; p_snap := None |}.
 
@@ -17,7 +27,7 @@ Definition vn (C : list entry) (s : node) : node :=
   {| n_id := n_id s; n_cfg := n_cfg s; n_p := vp C (n_p s); n_cnt := n_cnt s; n_budget := n_budget s; n_muts := n_muts s;
      n_role := n_role s; n_leader := n_leader s; n_commit := n_commit s; n_restore := n_restore s; n_elapsed := n_elapsed s;
      n_conf := n_conf s; f_contact := f_contact s; f_timeout := f_timeout s; c_timeout := c_timeout s; c_votes := c_votes s;
-     l_check := l_check s; l_peers := l_peers s; n_msgs := filter nis (n_msgs s); n_commits := n_commits s |}.
+     l_check := l_check s; l_peers := l_peers s; n_msgs := map img (n_msgs s); n_commits := n_commits s |}.
 
 (* the shape of a store relative to its ghost prefix; cm is the commit index of the node holding it *)
 Definition shape (C : list entry) (p : pstate) (cm : N) : Prop :=
@@ -153,18 +163,166 @@ End Reads.
 Lemma vn_send C s to b : nis {| m_term := 0; m_from := 0; m_to := 0; m_fromg := 0; m_tog := 0; m_epoch := 0; m_body := b |} = true ->
   vn C (send s to b) = send (vn C s) to b.
 Proof.
-  intro H. unfold vn, send, set_msgs. simpl. rewrite filter_app. simpl.
-  unfold nis in *. simpl in *. rewrite H. reflexivity.
+  intro H. unfold vn, send, set_msgs. simpl. rewrite map_app. simpl. unfold img at 2. simpl.
+  assert (E : img_body b = b) by (destruct b; simpl in *; try reflexivity; discriminate). rewrite E. reflexivity.
 Qed.
 
-Lemma vn_send_is C s to li lt c : vn C (send s to (InstallSnap li lt c)) = vn C s.
-Proof. unfold vn, send, set_msgs. simpl. rewrite filter_app. simpl. rewrite app_nil_r. reflexivity. Qed.
+Lemma vn_send_is C s to li lt c : vn C (send s to (InstallSnap li lt c)) = send (vn C s) to (AppEnts li lt li None).
+Proof. unfold vn, send, set_msgs. simpl. rewrite map_app. reflexivity. Qed.
 
 Lemma shape_ext C p p' cm cm' :
   p_log p' = p_log p -> p_snap p' = p_snap p -> cm <= cm' -> shape C p cm -> shape C p' cm'.
 Proof.
   unfold shape. intros A B Hc [W H]. rewrite A, B. split; [exact W|]. destruct (p_snap p); auto.
   destruct H as [H1 [H2 [H3 [H4 H5]]]]. repeat split; auto. lia.
+Qed.
+
+(* stores that agree on everything but the log / snapshot split *)
+Definition same_pv (p p' : pstate) : Prop :=
+  p_term p' = p_term p /\ p_vote p' = p_vote p /\ p_guid p' = p_guid p /\ p_guids p' = p_guids p.
+
+Lemma shape_snap C p cm m :
+  shape C p cm -> 1 <= sn_index m -> sn_index m <= cm -> sn_index m <= N.of_nat (length (C ++ p_log p)) ->
+  term_at (C ++ p_log p) (sn_index m) (sn_term m) -> N.of_nat (length C) <= sn_index m ->
+  shape C (apply_mut p (MSnapCommit m)) cm.
+Proof.
+  intros [W _] H1 H2 H3 H4 H5. unfold shape. simpl. split; [exact W|]. repeat split; auto.
+Qed.
+
+Lemma shape_trim C p cm m u :
+  shape C p cm -> p_snap p = Some m -> u <= sn_index m -> N.of_nat (length C) <= u ->
+  let n := N.to_nat (u - N.of_nat (length C)) in
+  (C ++ firstn n (p_log p)) ++ p_log (apply_mut p (MTrim u)) = C ++ p_log p /\
+  shape (C ++ firstn n (p_log p)) (apply_mut p (MTrim u)) cm.
+Proof.
+  intros Sh Es Hu Hc n. pose proof Sh as [W Sx]. rewrite Es in Sx. destruct Sx as [S1 [S2 [S3 [S4 S5]]]].
+  destruct (shape_phys _ _ _ Sh) as [_ Wp].
+  assert (Ht : mem_trim u (p_log p) = skipn n (p_log p)).
+  { rewrite (mem_trim_from _ _ _ Wp). f_equal. unfold n. lia. }
+  assert (Hn : (n <= length (p_log p))%nat) by (unfold n; rewrite app_length in S2; lia).
+  assert (HL : (C ++ firstn n (p_log p)) ++ skipn n (p_log p) = C ++ p_log p) by (rewrite <- app_assoc, firstn_skipn; reflexivity).
+  change (p_log (apply_mut p (MTrim u))) with (mem_trim u (p_log p)). rewrite Ht. split; [exact HL|].
+  unfold shape. change (p_log (apply_mut p (MTrim u))) with (mem_trim u (p_log p)).
+  change (p_snap (apply_mut p (MTrim u))) with (p_snap p). rewrite Ht, Es, HL. split; [exact W|].
+  rewrite app_length, firstn_length, Nat.min_l by exact Hn. repeat split; auto. unfold n. lia.
+Qed.
+
+Definition vols (s0 x : node) : Prop :=
+  n_id x = n_id s0 /\ n_cfg x = n_cfg s0 /\ n_role x = n_role s0 /\ n_conf x = n_conf s0 /\ n_commit x = n_commit s0 /\
+  l_peers x = l_peers s0 /\ n_msgs x = n_msgs s0.
+
+Lemma same_pv_refl p : same_pv p p.
+Proof. unfold same_pv. auto. Qed.
+
+Lemma vols_refl s : vols s s.
+Proof. unfold vols. repeat split; reflexivity. Qed.
+
+
+Lemma do_mut_cases' m s :
+  do_mut m s = Crashed (apply_mut (n_p s) m) \/
+  do_mut m s = Ret (upd_p s (apply_mut (n_p s) m) (n_cnt s + 1) (n_muts s ++ [m])).
+Proof. unfold do_mut. destruct (negb (n_budget s =? 0) && (n_budget s =? n_cnt s + 1)); auto. Qed.
+
+(* TrimLog right after the snapshot m was committed: the logical log is unchanged, the ghost prefix grows *)
+Definition tr_out (C : list entry) (s1 : node) (cm : N) (r : R node) : Prop :=
+  match r with
+  | Ret x => exists C', C' ++ p_log (n_p x) = C ++ p_log (n_p s1) /\ shape C' (n_p x) cm /\ same_pv (n_p s1) (n_p x) /\ vols s1 x /\
+                        p_snap (n_p x) = p_snap (n_p s1)
+  | Crashed p => exists C', C' ++ p_log p = C ++ p_log (n_p s1) /\ shape C' p cm /\ same_pv (n_p s1) p /\ p_snap p = p_snap (n_p s1)
+  | Fatal _ => True
+  end.
+
+Lemma trim_log_out C s1 m cm :
+  shape C (n_p s1) cm -> p_snap (n_p s1) = Some m -> tr_out C s1 cm (trim_log s1 (sn_index m)).
+Proof.
+  intros Sh1 Es.
+  assert (Hs1 : tr_out C s1 cm (Ret s1)).
+  { simpl. exists C. split; [reflexivity|]. split; [exact Sh1|]. split; [apply same_pv_refl|]. split; [apply vols_refl | reflexivity]. }
+  pose proof Sh1 as [W Sx]. rewrite Es in Sx. destruct Sx as [S1 [S2 [S3 [S4 S5]]]].
+  unfold trim_log. destruct (shape_phys _ _ _ Sh1) as [_ Wp].
+  destruct (log_first (p_log (n_p s1))) as [fi |] eqn:Ef; [| exact Hs1].
+  destruct (log_last (p_log (n_p s1))) as [li |] eqn:El; [| exact Hs1].
+  assert (Hne : p_log (n_p s1) <> []) by (intro X; rewrite X in Ef; discriminate).
+  rewrite (log_first_wf _ _ Wp Hne) in Ef. assert (Efi : fi = 1 + N.of_nat (length C)) by congruence. subst fi.
+  destruct (sn_index m =? 1 + N.of_nat (length C) - 1); [exact Hs1|].
+  destruct ((sn_index m <? 1 + N.of_nat (length C)) || (li <? sn_index m)) eqn:Eo; [exact Logic.I|].
+  apply orb_false_iff in Eo. destruct Eo as [Eo1 _]. apply N.ltb_ge in Eo1.
+  destruct (sn_index m - (1 + N.of_nat (length C)) <? cf_keep (n_cfg s1)) eqn:Ek; [exact Hs1|]. apply N.ltb_ge in Ek.
+  set (u := sn_index m - cf_keep (n_cfg s1)).
+  assert (Hu1 : u <= sn_index m) by (unfold u; lia).
+  assert (Hu2 : N.of_nat (length C) <= u) by (unfold u; lia).
+  destruct (shape_trim C (n_p s1) cm m u Sh1 Es Hu1 Hu2) as [HL Sh2].
+  set (n := N.to_nat (u - N.of_nat (length C))) in *.
+  assert (Pv2 : same_pv (n_p s1) (apply_mut (n_p s1) (MTrim u))) by (unfold same_pv; simpl; auto).
+  destruct (do_mut_cases' (MTrim u) s1) as [E2 | E2]; rewrite E2.
+  - simpl. exists (C ++ firstn n (p_log (n_p s1))). split; [exact HL|]. split; [exact Sh2|]. split; [exact Pv2 | reflexivity].
+  - simpl. exists (C ++ firstn n (p_log (n_p s1))). split; [exact HL|]. split; [exact Sh2|]. split; [exact Pv2|].
+    split; [unfold vols; simpl; repeat split; reflexivity | reflexivity].
+Qed.
+
+Lemma shape_cm' C p cm cm' : shape C p cm -> (forall m, p_snap p = Some m -> sn_index m <= cm') -> shape C p cm'.
+Proof.
+  intros [W Sx] H. split; [exact W|]. destruct (p_snap p) as [m |]; [| exact Sx].
+  destruct Sx as [S1 [S2 [S3 [S4 S5]]]]. repeat split; auto.
+Qed.
+
+Lemma reconcile_keep C id cfg p cm : shape C p cm -> reconcile (blank_node id cfg p) = Ret (blank_node id cfg p).
+Proof.
+  intros Sh. unfold reconcile. simpl n_p.
+  destruct (p_snap p) as [m |] eqn:Es; [| reflexivity].
+  pose proof Sh as [W Sx]. rewrite Es in Sx. destruct Sx as [S1 [S2 [S3 [S4 S5]]]].
+  destruct (shape_phys _ _ _ Sh) as [_ Wp].
+  destruct (log_first (p_log p)) as [fi |] eqn:Ef; [| reflexivity].
+  destruct (log_last (p_log p)) as [li |] eqn:Ell; [| reflexivity].
+  assert (Hne : p_log p <> []) by (intro X; rewrite X in Ef; discriminate).
+  rewrite (log_first_wf _ _ Wp Hne) in Ef. rewrite (log_last_wf _ _ Wp Hne) in Ell.
+  assert (Efi : fi = 1 + N.of_nat (length C)) by congruence.
+  assert (Eli : li = N.of_nat (length (C ++ p_log p))) by (rewrite app_length; assert (Y : 1 + N.of_nat (length C) + N.of_nat (length (p_log p)) - 1 = li) by congruence; lia).
+  subst fi li.
+  assert (X1 : ((N.of_nat (length (C ++ p_log p)) <? sn_index m) || (sn_index m + 1 <? 1 + N.of_nat (length C))) = false).
+  { apply orb_false_iff. split; apply N.ltb_ge; lia. }
+  rewrite X1.
+  destruct (1 + N.of_nat (length C) <=? sn_index m) eqn:X2; [| reflexivity]. apply N.leb_le in X2.
+  rewrite (log_term_S _ _ _ Sh) by lia.
+  destruct S3 as [Z | [e [Y1 Y2]]]; [lia|]. rewrite Y1. simpl. rewrite Y2, N.eqb_refl. reflexivity.
+Qed.
+
+(* a store torn by a crash between the snapshot commit of handleSnapshot and the truncation that discards a log not holding the
+   snapshot position: the start-up reconciliation performs the truncation, so newCore sees the same store as after the truncation *)
+Lemma new_core_torn C Cs id cfg p cm cm' M :
+  shape C p cm -> N.of_nat (length C) < sn_index M ->
+  (N.of_nat (length (C ++ p_log p)) < sn_index M \/
+   exists e, nth_error (C ++ p_log p) (N.to_nat (sn_index M - 1)) = Some e /\ e_term e <> sn_term M) ->
+  shape Cs (apply_mut (apply_mut p (MSnapCommit M)) (MTruncate 0)) cm' ->
+  new_core id cfg (apply_mut p (MSnapCommit M)) = new_core id cfg (apply_mut (apply_mut p (MSnapCommit M)) (MTruncate 0)).
+Proof.
+  intros Sh HC Hcase Sh3. set (p1 := apply_mut p (MSnapCommit M)). set (p3 := apply_mut p1 (MTruncate 0)).
+  assert (R3 : reconcile (blank_node id cfg p3) = Ret (blank_node id cfg p3)) by (eapply reconcile_keep; exact Sh3).
+  assert (R1 : exists r, reconcile (blank_node id cfg p1) = Ret r /\ n_p r = p3).
+  { unfold reconcile. simpl n_p. change (p_snap p1) with (Some M). change (p_log p1) with (p_log p).
+    destruct (shape_phys _ _ _ Sh) as [_ Wp].
+    destruct (p_log p) as [| x t] eqn:El.
+    - simpl. exists (blank_node id cfg p1). split; [reflexivity|]. simpl. unfold p3, p1, apply_mut, set_log, mem_truncate. simpl. rewrite El. reflexivity.
+    - rewrite <- El in *. assert (Hne : p_log p <> []) by (rewrite El; discriminate).
+      rewrite (log_first_wf _ _ Wp Hne), (log_last_wf _ _ Wp Hne).
+      assert (HL : 1 + N.of_nat (length C) + N.of_nat (length (p_log p)) - 1 = N.of_nat (length (C ++ p_log p))) by (rewrite app_length; lia).
+      rewrite HL.
+      assert (Htr : do_mut (MTruncate 0) (blank_node id cfg p1) = Ret (upd_p (blank_node id cfg p1) p3 (0 + 1) [MTruncate 0])) by reflexivity.
+      destruct Hcase as [Hc | [e [E1 E2]]].
+      + assert (X : ((N.of_nat (length (C ++ p_log p)) <? sn_index M) || (sn_index M + 1 <? 1 + N.of_nat (length C))) = true).
+        { apply orb_true_iff. left. apply N.ltb_lt. exact Hc. }
+        rewrite X, Htr. eexists. split; [reflexivity | reflexivity].
+      + assert (Hlen : sn_index M <= N.of_nat (length (C ++ p_log p))).
+        { assert (Z : nth_error (C ++ p_log p) (N.to_nat (sn_index M - 1)) <> None) by congruence. apply nth_error_Some in Z. lia. }
+        assert (X : ((N.of_nat (length (C ++ p_log p)) <? sn_index M) || (sn_index M + 1 <? 1 + N.of_nat (length C))) = false).
+        { apply orb_false_iff. split; apply N.ltb_ge; lia. }
+        rewrite X.
+        assert (X2 : (1 + N.of_nat (length C) <=? sn_index M) = true) by (apply N.leb_le; lia). rewrite X2.
+        assert (Elt : log_term p1 (sn_index M) = log_term p (sn_index M)) by reflexivity. simpl n_p. rewrite Elt.
+        rewrite (log_term_S _ _ _ Sh) by lia. rewrite E1. simpl.
+        assert (X3 : negb (e_term e =? sn_term M) = true) by (apply negb_true_iff; apply N.eqb_neq; exact E2).
+        rewrite X3, Htr. eexists. split; reflexivity. }
+  destruct R1 as [r [R1 Nr]]. unfold new_core. rewrite R1, R3. simpl. rewrite Nr. reflexivity.
 Qed.
 
 Section LVS.
@@ -251,8 +409,15 @@ Section LVS.
     intros [I Sh] Hn G Ld. split; [| exact Sh]. rewrite vn_send by exact Hn. apply inv_send; auto.
   Qed.
 
-  Lemma iS_send_is s to li lt c : iS s -> iS (send s to (InstallSnap li lt c)).
-  Proof. intros [I Sh]. split; [| exact Sh]. rewrite vn_send_is. exact I. Qed.
+  Lemma iS_send_is s to m c :
+    iS s -> leaderish s0 (vn C s) -> p_snap (n_p s) = Some m -> iS (send s to (InstallSnap (sn_index m) (sn_term m) c)).
+  Proof.
+    intros [I Sh] Ld Es. split; [| exact Sh]. rewrite vn_send_is.
+    pose proof Sh as [_ Sx]. rewrite Es in Sx. destruct Sx as [S1 [S2 [S3 [S4 S5]]]].
+    apply inv_send; [exact I | | right; split; [exact Ld|]].
+    - unfold mgood. simpl. unfold slice. split; [exact S2|]. split; [exact S3 | exact Logic.I].
+    - unfold cmS in S4. simpl. lia.
+  Qed.
 
   Lemma iS_pS s p :
     iS s -> p_log p = p_log (n_p s) -> p_snap p = p_snap (n_p s) -> p_term p = p_term (n_p s) -> pS p.
@@ -295,7 +460,7 @@ Section LVS.
   Proof. intros. eapply postSQ_postS. apply postSQ_do_mut_light; auto. Qed.
 
   (* ---------------------------------------------------------------- commit *)
-  Lemma iS_commit s i r c : iS s -> n_commit s <= i -> cjust s0 DC RSP (vn C s) i -> iS (set_commit s i r c).
+  Lemma iS_commit s i r c : iS s -> n_commit s <= i -> cjust s0 inp RT DC RSP (vn C s) i -> iS (set_commit s i r c).
   Proof.
     intros [I Sh] Hi J. split.
     - change (vn C (set_commit s i r c)) with (set_commit (vn C s) i r c). eapply inv_commit; eauto.
@@ -309,7 +474,7 @@ Section LVS.
     destruct (n_commit s <? sn_index m) eqn:E; auto. apply N.ltb_lt in E. unfold cmS in H4. lia.
   Qed.
 
-  Lemma postSQ_commit_up_to s i : iS s -> n_commit s <= i -> cjust s0 DC RSP (vn C s) i -> postSQ (samevS s) (commit_up_to s i).
+  Lemma postSQ_commit_up_to s i : iS s -> n_commit s <= i -> cjust s0 inp RT DC RSP (vn C s) i -> postSQ (samevS s) (commit_up_to s i).
   Proof.
     intros IS Hi J. pose proof IS as [I Sh]. unfold commit_up_to. rewrite (snap_case_none s Sh).
     apply postSQ_bind_pure; [apply pure_log_entries|]. intros ents _.
@@ -322,11 +487,11 @@ Section LVS.
     destruct H2 as [A1 [A2 [A3 [A4 [A5 [A6 [A7 [A8 A9]]]]]]]]. repeat split; auto. lia.
   Qed.
 
-  Lemma postS_commit_up_to s i : iS s -> n_commit s <= i -> cjust s0 DC RSP (vn C s) i -> postS (commit_up_to s i).
+  Lemma postS_commit_up_to s i : iS s -> n_commit s <= i -> cjust s0 inp RT DC RSP (vn C s) i -> postS (commit_up_to s i).
   Proof. intros. eapply postSQ_postS. apply postSQ_commit_up_to; auto. Qed.
 
   Lemma in_vn_msgs s m0 : In m0 (n_msgs s) -> nis m0 = true -> In m0 (n_msgs (vn C s)).
-  Proof. intros H1 H2. simpl. apply filter_In. auto. Qed.
+  Proof. intros H1 H2. simpl. rewrite <- (img_nis _ H2). apply in_map. exact H1. Qed.
 
   Lemma postS_follower_maybe_commit s lc mi m0 h :
     iS s -> DC lc -> In m0 (n_msgs s) -> m_body m0 = AppEntsResp true mi h ->
@@ -335,7 +500,7 @@ Section LVS.
     intros IS Hdc Hm Hb. unfold follower_maybe_commit. destruct (n_commit s <? N.min mi lc) eqn:E; [| simpl; auto].
     apply N.ltb_lt in E. apply postS_commit_up_to; auto; [lia|].
     intros r c. right. left. exists lc, mi, h, m0. simpl. repeat split; auto; try lia.
-    apply filter_In. split; auto. unfold nis. rewrite Hb. reflexivity.
+    apply in_vn_msgs; [exact Hm | unfold nis; rewrite Hb; reflexivity].
   Qed.
 
   (* ---------------------------------------------------------------- what a leader sends *)
@@ -406,10 +571,10 @@ Section LVS.
       + apply (Hset (send s (pr_id p) (AppEnts pi pt cm oe)) (pr_snap p)); try reflexivity.
         apply iS_send; [exact IS | reflexivity | unfold mgood; simpl; exact Sl | right; split; [exact Ld | rewrite Ecm; apply N.le_refl]].
       + apply (HsL (send s (pr_id p) (AppEnts pi pt cm oe)) (pr_snap p)); reflexivity.
-    - destruct (p_snap (n_p s)) as [m |]; simpl; [| exact Logic.I]. destruct (sn_conf m) as [cf |]; simpl; [| exact Logic.I].
+    - destruct (p_snap (n_p s)) as [m |] eqn:Esn; simpl; [| exact Logic.I]. destruct (sn_conf m) as [cf |]; simpl; [| exact Logic.I].
       split.
       + apply (Hset (send s (pr_id p) (InstallSnap (sn_index m) (sn_term m) cf)) true); try reflexivity.
-        apply iS_send_is. exact IS.
+        apply iS_send_is; auto.
       + apply (HsL (send s (pr_id p) (InstallSnap (sn_index m) (sn_term m) cf)) true); reflexivity.
   Qed.
 
@@ -436,13 +601,13 @@ Section LVS.
 
   Lemma leader_cjust_S s mi t :
     iS s -> n_role s = Leader -> find_majority_index s = Ret mi -> st_term (n_p s) mi = Ret (t, true) -> t = p_term (n_p s) ->
-    cjust s0 DC RSP (vn C s) mi /\ (l_peers s = [] -> in_latest_conf s = true).
+    cjust s0 inp RT DC RSP (vn C s) mi /\ (l_peers s = [] -> in_latest_conf s = true).
   Proof.
     intros [I Sh] Hr Hf Hst Ht. pose proof (v_ext _ _ _ _ _ _ _ _ _ I) as [_ [_ [_ PK]]]. destruct (PK Hr) as [P1 [P2 P3]].
     destruct (st_term_S _ _ _ Sh _ _ _ Hst) as [[_ [Hle [_ Ta]]] | [X _]]; [| discriminate].
     assert (Hli : mi <= last_index (n_p s)) by (rewrite (last_index_S _ _ _ Sh); exact Hle).
     destruct (majority_evidence s mi Hf P1 P2 Hli) as [c [Q [B1 [B2 [B3 [B4 B5]]]]]]. split; [| exact B5].
-    intros r cc. right. right. unfold lead_ev. simpl. split; [left; exact Hr|]. split; [exact Hle|]. split; [rewrite <- Ht; exact Ta|].
+    intros r cc. right. right. left. unfold lead_ev. simpl. split; [left; exact Hr|]. split; [exact Hle|]. split; [rewrite <- Ht; exact Ta|].
     exists c, Q. repeat split; auto.
     intros v Hv. destruct (B4 v Hv) as [X | [p [X1 X2]]]; [left; exact X | right]. exists p. split; auto. split; auto.
     destruct (peer_get_some _ _ _ X1) as [Y1 Y2]. rewrite <- Y2. apply P3. exact Y1.
@@ -455,7 +620,7 @@ Section LVS.
   Proof. unfold strong. simpl. tauto. Qed.
 
   Lemma postSQ_leader_commit_up_to_strong s i :
-    iS s -> strongS s -> n_commit s <= i -> cjust s0 DC RSP (vn C s) i -> postSQ strongS (leader_commit_up_to s i).
+    iS s -> strongS s -> n_commit s <= i -> cjust s0 inp RT DC RSP (vn C s) i -> postSQ strongS (leader_commit_up_to s i).
   Proof.
     intros I St Hi J. unfold leader_commit_up_to. eapply postSQ_bindQ; [apply postSQ_commit_up_to; auto|].
     intros s1 I1 [_ [_ [T1 _]]].
@@ -466,7 +631,7 @@ Section LVS.
   Qed.
 
   Lemma postSQ_leader_commit_up_to_weak s i :
-    iS s -> no_appents (n_msgs (vn C s)) -> l_peers s = [] -> in_latest_conf s = true -> n_commit s <= i -> cjust s0 DC RSP (vn C s) i ->
+    iS s -> no_appents (n_msgs (vn C s)) -> l_peers s = [] -> in_latest_conf s = true -> n_commit s <= i -> cjust s0 inp RT DC RSP (vn C s) i ->
     postSQ (fun x => no_appents (n_msgs (vn C x)) /\ l_peers x = []) (leader_commit_up_to s i).
   Proof.
     intros I Na Lp Hic Hi J. unfold leader_commit_up_to. eapply postSQ_bindQ; [apply postSQ_commit_up_to; auto|].
@@ -555,7 +720,7 @@ Section LVS.
       - intro E. right. right. split; auto. destruct (v_rt E) as [X | [X | [_ X]]]; simpl in *; congruence.
       - eapply LR_nonfollower; [| exact v_lr]. simpl. congruence.
       - destruct v_ext as [E1 [E2 [E3 E4]]]. unfold ext. simpl. split; [exact E1|]. split; [exact E2|]. split.
-        + destruct E3 as [X | [X | X]]; [left; exact X | right; left; exact X | exfalso].
+        + destruct E3 as [X | [X | [X | X]]]; [left; exact X | right; left; exact X | exfalso | right; right; right; exact X].
           destruct X as [[B1 | [B1 B2]] _]; [simpl in *; congruence|].
           destruct (v_rt B2) as [X | [X | [X _]]]; simpl in *; congruence.
         + intros _. unfold pk. simpl. split; [exact Logic.I|]. split; intros p []. }
@@ -825,10 +990,10 @@ Section LVS.
 
   Lemma postS_handle_app_ents s from pi pt cm oes :
     iS s -> n_msgs s = [] -> n_role s = Follower -> p_log (n_p s) = p_log (n_p s0r) -> in_ok inp RT (vn C s) pi pt oes -> ~ strongS s ->
-    DC cm -> premS (n_p s) pi pt oes ->
+    DC cm -> premS (n_p s) pi pt oes -> n_commit s = n_commit s0r ->
     postS (handle_app_ents s from pi pt cm oes).
   Proof.
-    intros IS Hm Hr Hl [[Hrt0 Hrt] Hin] Hns Hdc [PT PA]. pose proof IS as [I Sh]. unfold handle_app_ents.
+    intros IS Hm Hr Hl [[Hrt0 Hrt] Hin] Hns Hdc [PT PA] Hcm0. pose proof IS as [I Sh]. unfold handle_app_ents.
     assert (Hfmc : forall x mi, iS x -> resp_ok RT (C ++ p_log (n_p x)) mi ->
                      postS (follower_maybe_commit (send x from (AppEntsResp true mi 0)) cm mi)).
     { intros x mi Ix Hok. eapply postS_follower_maybe_commit with (h := 0); [apply iS_resp; auto | exact Hdc | | ].
@@ -862,6 +1027,7 @@ Section LVS.
     assert (HmV : n_msgs (vn C s) = []) by (simpl; rewrite Hm; reflexivity).
     assert (HlV : p_log (n_p (vn C s)) = p_log (n_p s0)) by (simpl; exact Hl').
     assert (HnsV : ~ strong s0 (vn C s)) by (intro X; apply Hns; apply strong_vn; exact X).
+    assert (Hcm0V : n_commit (vn C s) = n_commit s0) by (simpl; exact Hcm0).
     eapply postSQ_bind with (Q := fun y => n_msgs y = [] /\ n_role y = Follower /\ p_term (n_p y) = p_term (n_p s) /\
                                           n_commit y = n_commit s /\
                                           exists c, C ++ p_log (n_p y) = firstn c L0 /\ qtrunc s0 (vn C s) pi pt ents c).
@@ -970,15 +1136,17 @@ Section LVS.
   Qed.
 
   (* ---------------------------------------------------------------- follower *)
-  Lemma postSQ_follower_note_leader s from : iS s -> postSQ (samevS s) (follower_note_leader s from).
+  Lemma postSQ_follower_note_leader s from :
+    iS s -> postSQ (fun s1 => samevS s s1 /\ n_commit s1 = n_commit s) (follower_note_leader s from).
   Proof.
     intro I. unfold follower_note_leader.
-    eapply postSQ_bindQ with (Q := samevS s).
+    eapply postSQ_bindQ with (Q := fun s1 => samevS s s1 /\ n_commit s1 = n_commit s).
     - destruct (p_vote (n_p s) =? 0).
-      + eapply postSQ_mono; [| apply postSQ_do_mut_light; auto; exact Logic.I]. intros x [X _]. exact X.
+      + apply postSQ_do_mut_light; auto; exact Logic.I.
       + apply postSQ_ret; auto using samevS_refl.
-    - intros s1 I1 S1. destruct (n_leader s1 =? 0).
-      + apply postSQ_ret; [volS|]. eapply samevS_trans; [exact S1|]. unfold samevS; simpl; repeat split; try reflexivity; try lia.
+    - intros s1 I1 [S1 C1]. destruct (n_leader s1 =? 0).
+      + apply postSQ_ret; [volS|]. split; [| simpl; exact C1].
+        eapply samevS_trans; [exact S1|]. unfold samevS; simpl; repeat split; try reflexivity; try lia.
       + destruct (negb (n_leader s1 =? from)); [exact Logic.I | apply postSQ_ret; auto].
   Qed.
 
@@ -1006,12 +1174,13 @@ Section LVS.
 
   Lemma postS_handle_follower s m :
     iS s -> n_msgs s = [] -> n_role s = Follower -> p_log (n_p s) = p_log (n_p s0r) -> mcondS s m -> ~ strongS s ->
+    n_commit s = n_commit s0r ->
     postS (handle_follower s m).
   Proof.
-    intros IS Hm Hr Hl [Hc Hp] Hns. pose proof IS as [I Sh]. unfold handle_follower. unfold mcond in Hc.
+    intros IS Hm Hr Hl [Hc Hp] Hns Hcm0. pose proof IS as [I Sh]. unfold handle_follower. unfold mcond in Hc.
     destruct (m_body m) as [pi pt cm0 ents | su ix hi | lidx ltrm | granted | sli slt scf].
     - destruct Hc as [Hdc Hc]. eapply postSQ_bind; [apply postSQ_follower_note_leader; auto|].
-      intros s1 I1 [A1 [A0 [A2 [A3 [A4 [A5 [A6 [A7 A8]]]]]]]]. apply postS_handle_app_ents; auto; try congruence.
+      intros s1 I1 [[A1 [A0 [A2 [A3 [A4 [A5 [A6 [A7 A8]]]]]]]] Ac1]. apply postS_handle_app_ents; auto; try congruence.
       + unfold in_ok in *. destruct Hc as [Hc0 Hc]. split; auto. destruct ents; auto. simpl in *. rewrite A2. exact Hc.
       + unfold strong in *. rewrite A2. exact Hns.
       + unfold premS, snapi in *. rewrite A1, A0. exact Hp.
@@ -1112,10 +1281,10 @@ Section LVS.
 
   Lemma postS_handle_by_role s m :
     iS s -> n_msgs s = [] -> p_log (n_p s) = p_log (n_p s0r) -> mcondS s m -> (n_role s = Leader -> strongS s) ->
-    (n_role s = n_role s0r \/ p_term (n_p s) <> p_term (n_p s0r)) ->
+    (n_role s = n_role s0r \/ p_term (n_p s) <> p_term (n_p s0r)) -> n_commit s = n_commit s0r ->
     postS (handle_by_role s m).
   Proof.
-    intros I Hm Hl Hc Hs Hd. unfold handle_by_role. destruct (n_role s) eqn:Er.
+    intros I Hm Hl Hc Hs Hd Hcm0. unfold handle_by_role. destruct (n_role s) eqn:Er.
     - apply postS_handle_follower; auto. intros [X Y]. simpl in *. destruct Hd; congruence.
     - apply postS_handle_candidate; auto.
     - apply postS_handle_leader; auto. destruct Hc as [Hc _]. unfold mcond in Hc. destruct (m_body m); auto.
@@ -1124,7 +1293,7 @@ Section LVS.
   (* ---------------------------------------------------------------- HandleMsg *)
   Definition mok3S (m : msg) : Prop :=
     mok3 inp RT VQ DC RSP m /\
-    match m_body m with AppEnts pi pt _ oes => premS (n_p s0r) pi pt oes | _ => True end.
+    match m_body m with AppEnts pi pt _ oes => p_term (n_p s0r) <= m_term m -> premS (n_p s0r) pi pt oes | _ => True end.
 
   Lemma premS_ext p p' pi pt oes : p_log p' = p_log p -> p_snap p' = p_snap p -> premS p pi pt oes -> premS p' pi pt oes.
   Proof. unfold premS, snapi. intros A B. rewrite A, B. auto. Qed.
@@ -1142,9 +1311,9 @@ Section LVS.
         [apply postSQ_do_mut_light; auto; exact Logic.I | apply postSQ_ret; auto using samevS_refl].
     - intros s1 IS1 [[A1 [A0 [A2 [A3 [A4 [A5 [A6 [A7 A8]]]]]]]] Ac]. pose proof IS1 as [I1 Sh1].
       assert (Hc1 : mcondS s1 m -> True) by auto.
-      assert (Hprem1 : forall x, p_log (n_p x) = p_log (n_p s1) -> p_snap (n_p x) = p_snap (n_p s1) ->
+      assert (Hprem1 : forall x, p_term (n_p s0r) <= m_term m -> p_log (n_p x) = p_log (n_p s1) -> p_snap (n_p x) = p_snap (n_p s1) ->
                         match m_body m with AppEnts pi pt _ oes => premS (n_p x) pi pt oes | _ => True end).
-      { intros x X1 X2. destruct (m_body m); auto. eapply premS_ext; [| | exact Hpr]; congruence. }
+      { intros x X0 X1 X2. destruct (m_body m); auto. eapply premS_ext; [| | exact (Hpr X0)]; congruence. }
       match goal with |- postS (if ?c then _ else _) => destruct c end; [simpl; auto|].
       destruct (m_term m <? p_term (n_p s1)) eqn:Elt; [simpl; auto|]. apply N.ltb_ge in Elt.
       destruct (p_term (n_p s1) <? m_term m) eqn:Egt.
@@ -1171,13 +1340,14 @@ Section LVS.
               * unfold shp. simpl. eapply shape_ext; [| | apply N.le_refl | exact Sh1]; reflexivity.
             + simpl. congruence.
             + simpl. congruence.
-            + split; [apply mok3_mcond; auto | apply Hprem1; reflexivity].
+            + split; [apply mok3_mcond; auto | apply Hprem1; [lia | reflexivity | reflexivity]].
             + simpl. discriminate.
-            + right. simpl. lia. }
+            + right. simpl. lia.
+            + simpl. congruence. }
         destruct (m_body m); try exact Logic.I; apply Hsave.
       + apply N.ltb_ge in Egt. cbv beta iota delta [bind].
         apply postS_handle_by_role; auto; try congruence.
-        * split; [apply mok3_mcond; auto; simpl; lia | apply Hprem1; reflexivity].
+        * split; [apply mok3_mcond; auto; simpl; lia | apply Hprem1; [lia | reflexivity | reflexivity]].
         * intro X. split; simpl; congruence.
         * left. congruence.
   Qed.
@@ -1401,12 +1571,354 @@ Section LVS.
     - apply postS2_propose; auto.
     - unfold wrap0. apply postS2_of_postS. apply postS_new_core. eapply iS_pS; eauto.
   Qed.
+  (* ---------------------------------------------------------------- InstallSnapshot delivered (completed without a crash) *)
+  (* the virtual input is an AppEnts with prevIndex 0 whose entries Cs are the sender's committed prefix; the result may have a
+     different ghost prefix C' *)
+  Variable XI : list entry.     (* where the entries of the new ghost prefix come from *)
+  Hypothesis HXI : incl (C ++ p_log (n_p s0r)) XI.
+
+  (* what justifies, after a crash inside handleSnapshot, the commit index newCore restores from the snapshot *)
+  Definition icj (C' : list entry) (p : pstate) : Prop :=
+    exists m a, p_snap p = Some m /\ DC (sn_index m) /\ inp = Some a /\ p_term p = ai_term a /\
+                resp_ok RT (C' ++ p_log p) (sn_index m).
+
+  Definition pI (p : pstate) : Prop :=
+    exists C' cm, PINV (vp C' p) /\ shape C' p cm /\ incl C' XI /\ (cm <= n_commit s0r \/ icj C' p).
+
+  Definition postI (r : R node) : Prop :=
+    match r with
+    | Ret x => exists C', INV (vn C' x) /\ shape C' (n_p x) (n_commit x) /\ incl C' XI
+    | Crashed p => exists p', (forall id cfg, new_core id cfg p = new_core id cfg p') /\ pI p'
+    | Fatal _ => True
+    end.
+
+  Lemma pI_of_pS p : pS p -> pI p.
+  Proof.
+    intros [P [cm [Sh Hc]]]. exists C, cm. split; [exact P|]. split; [exact Sh|]. split; [| left; exact Hc].
+    intros x Hx. apply HXI. apply in_or_app. left. exact Hx.
+  Qed.
+
+  Lemma postI_of_postS r : postS r -> postI r.
+  Proof.
+    destruct r; simpl; auto.
+    - intros [I Sh]. exists C. split; [exact I|]. split.
+      + apply (shape_cm (n_p a) (cmS a)); [exact Sh|]. intros m Hm. destruct Sh as [_ S2]. rewrite Hm in S2. unfold cmS in S2. lia.
+      + intros x Hx. apply HXI. apply in_or_app. left. exact Hx.
+    - intro H. exists p. split; [reflexivity | apply pI_of_pS; exact H].
+  Qed.
+
+  Lemma postI_bind (a : R node) (f : node -> R node) :
+    postS a -> (forall s1, iS s1 -> postI (f s1)) -> postI (bind a f).
+  Proof. intros Ha Hf. destruct a; simpl in *; auto. exists p. split; [reflexivity | apply pI_of_pS; exact Ha]. Qed.
+
+  (* newCore on a store that crashed inside the delivery *)
+  Lemma postI_new_core id cfg p z :
+    pI p -> new_core id cfg p = Ret z -> exists C', INV (vn C' z) /\ shape C' (n_p z) (n_commit z) /\ incl C' XI.
+  Proof.
+    intros [C' [cm [P [Sh [Hi J]]]]]. unfold new_core. rewrite (reconcile_keep C' id cfg p cm Sh). cbv beta iota delta [bind]. simpl n_p.
+    set (sb := set_conf (blank_node id cfg p) (init_latest_conf p)).
+    assert (Hfresh : forall cmt rst,
+              (cmt <= n_commit s0r \/ exists cm0 a, DC cm0 /\ inp = Some a /\ p_term p = ai_term a /\ cmt <= cm0 /\ resp_ok RT (C' ++ p_log p) cmt) ->
+              (forall m, p_snap p = Some m -> sn_index m <= cmt) ->
+              INV (vn C' (become_follower (set_commit sb cmt rst []) 0)) /\ shape C' p cmt).
+    { intros cmt rst H1 H2. split.
+      - destruct P as [A B Cc D E]. constructor; simpl; auto.
+        + destruct Cc as [Cc | Cc]; [left | right; exact Cc]. split; auto. simpl in Cc.
+          apply app_eq_nil in Cc. destruct Cc as [C1 C2].
+          destruct (p_snap p) as [m |] eqn:Es.
+          * exfalso. destruct Sh as [_ Sx]. rewrite Es in Sx. rewrite C1, C2 in Sx. simpl in Sx. lia.
+          * apply init_latest_conf_nil; auto.
+        + intro X. congruence.
+        + left. constructor.
+        + unfold ext. simpl. split; [constructor|]. split; [exact Logic.I|]. split; [| intro X; discriminate].
+          destruct H1 as [H1 | [cm0 [a [K1 [K2 [K3 [K4 K5]]]]]]]; [left; exact H1 | right; right; right].
+          exists cm0, a. simpl. auto.
+      - apply (shape_cm' C' p cm); auto. }
+    destruct (p_snap p) as [m |] eqn:Es.
+    - unfold commit_up_to. simpl p_snap. rewrite Es. simpl n_commit.
+      assert (Hm1 : 1 <= sn_index m /\ sn_index m <= cm) by (destruct Sh as [_ Sx]; rewrite Es in Sx; tauto).
+      assert (X : (0 <? sn_index m) = true) by (apply N.ltb_lt; lia). rewrite X. rewrite N.eqb_refl. simpl.
+      intro H. inversion H. subst z.
+      destruct (Hfresh (sn_index m) true) as [Iz Sz].
+      + destruct J as [J | [m' [a [K1 [K2 [K3 [K4 K5]]]]]]]; [left; lia | right].
+        rewrite Es in K1. inversion K1. subst m'. exists (sn_index m), a. repeat split; auto. lia.
+      + intros m' Hm'. inversion Hm'. apply N.le_refl.
+      + exists C'. split; [exact Iz|]. split; [simpl; exact Sz | exact Hi].
+    - simpl. intro H. inversion H. subst z.
+      change (become_follower sb 0) with (become_follower (set_commit sb 0 false []) 0).
+      destruct (Hfresh 0 false) as [Iz Sz]; [left; lia | intros m' Hm'; discriminate|].
+      exists C'. split; [exact Iz|]. split; [simpl; exact Sz | exact Hi].
+  Qed.
+
+  Section Install.
+    Variables (Cs : list entry) (li lt : N) (cf : membership).
+    Hypothesis HXIs : incl Cs XI.
+
+    Definition premI (s : node) : Prop :=
+      inp = Some {| ai_term := p_term (n_p s); ai_pi := 0; ai_pt := 0; ai_ents := Cs |} /\
+      (forall j e, nth_error Cs j = Some e -> RT (0 + N.of_nat j + 1) (e_term e)) /\
+      wf_from 1 Cs /\ 1 <= p_term (n_p s) /\ DC li /\ 1 <= li /\ li <= N.of_nat (length Cs) /\ term_at Cs li lt /\
+      (forall cur, p_snap (n_p s) = Some cur -> li <= sn_index cur -> resp_ok RT (C ++ p_log (n_p s)) (sn_index cur)) /\
+      ((N.of_nat (length (C ++ p_log (n_p s))) < li \/ exists e, nth_error (C ++ p_log (n_p s)) (N.to_nat (li - 1)) = Some e /\ e_term e <> lt) ->
+       N.of_nat (length Cs) = li /\
+       exists c, qtrunc s0 (vn C s) 0 0 Cs c /\ (c < N.to_nat li)%nat /\ firstn c (C ++ p_log (n_p s)) = firstn c Cs).
+
+    Lemma rt_last : (forall j e, nth_error Cs j = Some e -> RT (0 + N.of_nat j + 1) (e_term e)) -> 1 <= li -> term_at Cs li lt -> RT li lt.
+    Proof.
+      intros H H1 [Z | [e [E1 E2]]]; [lia|]. specialize (H _ _ E1). rewrite E2 in H.
+      replace (0 + N.of_nat (N.to_nat (li - 1)) + 1) with li in H by lia. exact H.
+    Qed.
+
+    Lemma in_log_total p cm i t : shape C p cm -> exists b, in_log p i t = Ret b.
+    Proof.
+      intro Sh. destruct (shape_phys _ _ _ Sh) as [_ W]. unfold in_log.
+      destruct (p_log p) as [| x r] eqn:El; [simpl; eauto|].
+      rewrite <- El in *. assert (Hne : p_log p <> []) by (rewrite El; discriminate).
+      rewrite (log_first_wf _ _ W Hne), (log_last_wf _ _ W Hne).
+      destruct ((1 + N.of_nat (length C) <=? i) && (i <=? 1 + N.of_nat (length C) + N.of_nat (length (p_log p)) - 1)) eqn:Eb; [| eauto].
+      apply andb_true_iff in Eb. destruct Eb as [B1 B2]. apply N.leb_le in B1, B2.
+      rewrite (log_term_S _ _ _ Sh) by lia.
+      destruct (nth_error (C ++ p_log p) (N.to_nat (i - 1))) as [e |] eqn:En; simpl; [eauto|].
+      apply nth_error_None in En. rewrite app_length in En. lia.
+    Qed.
+
+    Lemma postI_handle_snapshot s from :
+      iS s -> n_msgs s = [] -> n_role s = Follower -> p_log (n_p s) = p_log (n_p s0r) -> ~ strongS s -> premI s ->
+      n_commit s = n_commit s0r ->
+      postI (handle_snapshot s from li lt cf).
+    Proof.
+      intros IS Hm Hr Hl Hns [Hinp [Hrt [Hwe [Ht1 [Hdc [Hli [Hlen [Hlt [Pst Pdisc]]]]]]]]] Hcm0. pose proof IS as [I Sh].
+      unfold handle_snapshot. set (sc := set_follower_contact s).
+      assert (Ic : iS sc) by (unfold sc; volS). pose proof Ic as [Icv Shc].
+      assert (Hrtl : RT li lt) by (apply rt_last; auto).
+      destruct (match p_snap (n_p sc) with Some m => if li <=? sn_index m then Some (sn_index m) else None | None => None end) as [cur |] eqn:Est.
+      { (* stale *)
+        apply postI_of_postS. simpl. apply iS_resp; [exact Ic|]. intros _.
+        change (p_snap (n_p sc)) with (p_snap (n_p s)) in Est. destruct (p_snap (n_p s)) as [mc |] eqn:Es; [| discriminate].
+        destruct (li <=? sn_index mc) eqn:El; [| discriminate]. apply N.leb_le in El. inversion Est. subst cur.
+        apply (Pst mc eq_refl El). }
+      set (M := {| sn_index := li; sn_term := lt; sn_conf := Some cf |}).
+      assert (HCli : N.of_nat (length C) < li).
+      { change (p_snap (n_p sc)) with (p_snap (n_p s)) in Est. pose proof Sh as [_ Sx]. destruct (p_snap (n_p s)) as [mc |].
+        - destruct (li <=? sn_index mc) eqn:El; [discriminate|]. apply N.leb_gt in El. lia.
+        - rewrite Sx. simpl. lia. }
+      assert (Shc' : shape C (n_p sc) (cmS sc)) by exact Shc.
+      assert (ShcM : forall cm, shape C (n_p sc) cm -> True) by auto.
+      assert (Shbase : shape C (n_p s) (N.max (n_commit s) li)).
+      { apply (shape_cm (n_p sc) (cmS sc)); [exact Shc|].
+        intros m0 Hm0. destruct Shc as [_ S2]. rewrite Hm0 in S2. unfold cmS in S2. simpl in S2. lia. }
+      assert (HmV : n_msgs (vn C sc) = []) by (simpl; rewrite Hm; reflexivity).
+      assert (HnsV : ~ strong s0 (vn C sc)) by (intro X; apply Hns; apply strong_vn; exact X).
+      assert (HlV : p_log (n_p (vn C sc)) = p_log (n_p s0)) by (simpl; rewrite Hl; reflexivity).
+      assert (Hcm0V : n_commit (vn C sc) = n_commit s0) by (simpl; exact Hcm0).
+      assert (Hta0 : term_at (p_log (n_p s0)) 0 0) by (left; reflexivity).
+      (* stores whose logical log is unchanged *)
+      assert (Ksame : forall C' p, C' ++ p_log p = C ++ p_log (n_p s) -> p_term p = p_term (n_p s) -> PINV (vp C' p)).
+      { intros C' p HL HT. eapply inv_pinv; [exact Icv | simpl; exact HL | reflexivity | simpl; exact HT]. }
+      (* the tail: raise the commit index to li if needed, respond *)
+      assert (Hfin : forall C' y, INV (vn C' y) -> n_msgs y = [] -> shape C' (n_p y) (N.max (n_commit y) li) -> incl C' XI ->
+                       resp_ok RT (C' ++ p_log (n_p y)) li -> p_snap (n_p y) = Some M ->
+                       postI (s3 <- (if n_commit y <? li then commit_up_to y li else Ret y) ;; Ret (send s3 from (AppEntsResp true li 0)))).
+      { intros C' y Iy My Shy HinclC Ry Sy.
+        assert (Isend : INV (send (vn C' y) from (AppEntsResp true li 0))).
+        { apply inv_resp; [exact Iy | intros _; exact Ry]. }
+        assert (Evs : forall z, n_msgs z = [] -> vn C' (send z from (AppEntsResp true li 0)) = send (vn C' z) from (AppEntsResp true li 0)).
+        { intros z Mz. apply vn_send. reflexivity. }
+        destruct (n_commit y <? li) eqn:Ec.
+        - apply N.ltb_lt in Ec. unfold commit_up_to. rewrite Sy. simpl sn_index.
+          assert (X : (n_commit y <? li) = true) by (apply N.ltb_lt; exact Ec). rewrite X. rewrite N.eqb_refl. simpl.
+          exists C'. split.
+          + rewrite Evs by exact My.
+            change (send (vn C' (set_commit y li true (n_commits y))) from (AppEntsResp true li 0))
+              with (set_commit (send (vn C' y) from (AppEntsResp true li 0)) li true (n_commits y)).
+            eapply inv_commit; eauto; [simpl; lia|].
+            intros r c. right. left. eexists li, li, 0, _. simpl. split; [exact Hdc|]. split; [lia|].
+            split; [apply in_or_app; right; left; reflexivity|]. split; [reflexivity | lia].
+          + split; [| exact HinclC]. simpl. replace (N.max (n_commit y) li) with li in Shy by lia. exact Shy.
+        - apply N.ltb_ge in Ec. simpl. exists C'. split.
+          + rewrite Evs by exact My. exact Isend.
+          + split; [| exact HinclC]. simpl. replace (N.max (n_commit y) li) with (n_commit y) in Shy by lia. exact Shy. }
+      set (p1 := apply_mut (n_p sc) (MSnapCommit M)).
+      destruct (in_log_total (n_p sc) (cmS sc) li lt Shc) as [il Eil].
+      pose proof Eil as Hil. apply (in_log_S C (n_p sc) (cmS sc) Shc) in Hil. change (p_log (n_p sc)) with (p_log (n_p s)) in Hil.
+      assert (Hinp1 : forall p, p_term p = p_term (n_p s) -> exists a, inp = Some a /\ p_term p = ai_term a).
+      { intros p HT. eexists. split; [exact Hinp | simpl; exact HT]. }
+      destruct il.
+      - (* the log holds (li, lt): trim only *)
+        destruct Hil as [H1 [H2 H3]].
+        assert (Shm : shape C p1 (N.max (n_commit s) li)) by (apply shape_snap; [exact Shbase | exact Hli | simpl; lia | exact H2 | exact H3 | simpl; lia]).
+        assert (Rk : resp_ok RT (C ++ p_log (n_p s)) li).
+        { destruct H3 as [Z | [e [X1 X2]]]; [lia|]. right. exists e. split; [exact X1|]. rewrite X2. exact Hrtl. }
+        assert (Jsame : forall C' p, C' ++ p_log p = C ++ p_log (n_p s) -> p_snap p = Some M -> p_term p = p_term (n_p s) -> icj C' p).
+        { intros C' p HL HS HT. destruct (Hinp1 p HT) as [a [A1 A2]]. exists M, a. split; [exact HS|]. split; [exact Hdc|]. split; [exact A1|]. split; [exact A2|].
+          simpl sn_index. rewrite HL. exact Rk. }
+        destruct (do_mut_cases' (MSnapCommit M) sc) as [E1 | E1]; rewrite E1.
+        { simpl. exists p1. split; [reflexivity|]. exists C, (N.max (n_commit s) li). split; [apply Ksame; reflexivity|]. split; [exact Shm|].
+          split; [intros x Hx; apply HXI; apply in_or_app; left; exact Hx|]. right. apply Jsame; reflexivity. }
+        rewrite bind_ret.
+        match goal with |- postI (bind (in_log (n_p ?x) _ _) _) => set (s1 := x) end.
+        assert (Ein : in_log (n_p s1) li lt = in_log (n_p sc) li lt) by reflexivity. rewrite Ein, Eil, bind_ret.
+        pose proof (trim_log_out C s1 M (N.max (n_commit s) li) Shm eq_refl) as Out. simpl sn_index in Out.
+        destruct (trim_log s1 li) as [y | |].
+        + rewrite bind_ret. simpl in Out. destruct Out as [C' [HL [Shy [[P1 [P2 [P3 P4]]] [[V1 [V2 [V3 [V4 [V5 [V6 V7]]]]]] Sy]]]]].
+          change (p_log (n_p s1)) with (p_log (n_p s)) in HL.
+          apply (Hfin C' y).
+          * eapply inv_frame with (s := vn C sc); [exact Icv | | | | | | | | |].
+            -- simpl. exact HL.
+            -- reflexivity.
+            -- simpl. exact P1.
+            -- left. simpl. exact V3.
+            -- left. simpl. exact V4.
+            -- simpl. exact V5.
+            -- simpl. exact V6.
+            -- simpl. exact V1.
+            -- exists []. simpl. rewrite V7. simpl. rewrite Hm. split; [reflexivity|]. split; [constructor|]. split; [left; constructor | constructor].
+          * rewrite V7. simpl. exact Hm.
+          * rewrite V5. simpl. exact Shy.
+          * intros x Hx. apply HXI. rewrite <- Hl, <- HL. apply in_or_app. left. exact Hx.
+          * rewrite HL. exact Rk.
+          * rewrite Sy. reflexivity.
+        + exact Logic.I.
+        + simpl in Out. destruct Out as [C' [HL [Shy [[P1 _] Sy]]]]. change (p_log (n_p s1)) with (p_log (n_p s)) in HL.
+          simpl. exists p. split; [reflexivity|]. exists C', (N.max (n_commit s) li). split; [apply Ksame; [exact HL | exact P1]|]. split; [exact Shy|].
+          split; [intros x Hx; apply HXI; rewrite <- Hl, <- HL; apply in_or_app; left; exact Hx|].
+          right. apply Jsame; [exact HL | rewrite Sy; reflexivity | exact P1].
+      - (* the log does not hold (li, lt): discard it, the snapshot is the store *)
+        assert (Hcase : N.of_nat (length (C ++ p_log (n_p s))) < li \/
+                        exists e, nth_error (C ++ p_log (n_p s)) (N.to_nat (li - 1)) = Some e /\ e_term e <> lt).
+        { destruct Hil as [X | [X | X]]; [lia | left; exact X | right; exact X]. }
+        destruct (Pdisc Hcase) as [HlenCs [c [Qc [Hc Hfc]]]].
+        destruct (shape_phys _ _ _ Sh) as [_ Wp].
+        set (p3 := apply_mut p1 (MTruncate 0)).
+        assert (Elp3 : p_log p3 = []).
+        { unfold p3, p1. simpl. change (p_log (n_p sc)) with (p_log (n_p s)). rewrite (mem_truncate_from _ _ _ Wp).
+          replace (N.to_nat (0 + 1 - (1 + N.of_nat (length C)))) with 0%nat by lia. reflexivity. }
+        assert (Sp3 : p_snap p3 = Some M) by reflexivity.
+        assert (Sh3 : shape Cs p3 (N.max (n_commit s) li)).
+        { unfold shape. rewrite Elp3, app_nil_r, Sp3. split; [exact Hwe|]. simpl sn_index. simpl sn_term.
+          split; [lia|]. split; [exact Hlen|]. split; [exact Hlt|]. split; [lia | exact Hli]. }
+        assert (Hlt0 : (c < N.to_nat 0 + length Cs)%nat) by (simpl; lia).
+        assert (HL3 : Cs ++ p_log p3 = firstn c (p_log (n_p s0)) ++ skipn (c - N.to_nat 0) Cs).
+        { rewrite Elp3, app_nil_r. simpl N.to_nat. rewrite Nat.sub_0_r. rewrite <- HlV. simpl p_log. rewrite Hfc. symmetry. apply firstn_skipn. }
+        assert (P3v : PINV (vp Cs p3)).
+        { exact (pinv_merged s0 inp boot RT VQ LQ HLQ DC RSP (vn C sc) 0 0 Cs Icv HlV Hinp Hwe Ht1 Hta0 HnsV Hcm0V c (vp Cs p3) Qc Hlt0 HL3 eq_refl eq_refl). }
+        assert (Rk3 : resp_ok RT (Cs ++ p_log p3) li).
+        { rewrite Elp3, app_nil_r. destruct Hlt as [Z | [e [X1 X2]]]; [lia|]. right. exists e. split; [exact X1|]. rewrite X2. exact Hrtl. }
+        assert (PI3 : pI p3).
+        { exists Cs, (N.max (n_commit s) li). split; [exact P3v|]. split; [exact Sh3|]. split; [exact HXIs|]. right.
+          destruct (Hinp1 p3 eq_refl) as [a [A1 A2]]. exists M, a. split; [exact Sp3|]. split; [exact Hdc|]. split; [exact A1|]. split; [exact A2 | exact Rk3]. }
+        destruct (do_mut_cases' (MSnapCommit M) sc) as [E1 | E1]; rewrite E1.
+        { simpl. exists p3. split; [| exact PI3]. intros id cfg.
+          exact (new_core_torn C Cs id cfg (n_p sc) (N.max (n_commit s) li) (N.max (n_commit s) li) M Shbase HCli Hcase Sh3). }
+        rewrite bind_ret.
+        match goal with |- postI (bind (in_log (n_p ?x) _ _) _) => set (s1 := x) end.
+        assert (Ein : in_log (n_p s1) li lt = in_log (n_p sc) li lt) by reflexivity. rewrite Ein, Eil, bind_ret.
+        destruct (do_mut_cases' (MTruncate 0) s1) as [E2 | E2]; rewrite E2.
+        { simpl. exists p3. split; [reflexivity | exact PI3]. }
+        rewrite !bind_ret.
+        match goal with |- postI (bind (if n_commit ?x <? _ then _ else _) _) => set (y := x) end.
+        assert (Ely : p_log (n_p y) = []) by exact Elp3.
+        apply (Hfin Cs y).
+        + assert (MyV : n_msgs (vn Cs y) = []) by (simpl; rewrite Hm; reflexivity).
+          assert (HLy : Cs ++ p_log (n_p y) = firstn c (p_log (n_p s0)) ++ skipn (c - N.to_nat 0) Cs) by exact HL3.
+          exact (inv_merged s0 inp boot RT VQ LQ HLQ DC RSP (vn C sc) 0 0 Cs Icv HlV Hinp Hwe Ht1 Hta0 HnsV Hcm0V c (vn Cs y)
+                   eq_refl Qc Hlt0 HLy eq_refl eq_refl Hr MyV).
+        + simpl. exact Hm.
+        + exact Sh3.
+        + exact HXIs.
+        + exact Rk3.
+        + reflexivity.
+    Qed.
+
+    Lemma postI_bindQ Q (a : R node) (f : node -> R node) :
+      postSQ Q a -> (forall s1, iS s1 -> Q s1 -> postI (f s1)) -> postI (bind a f).
+    Proof.
+      intros Ha Hf. destruct a; simpl in *; auto.
+      - destruct Ha. auto.
+      - exists p. split; [reflexivity | apply pI_of_pS; exact Ha].
+    Qed.
+
+    Definition premIx (s : node) : Prop :=
+      forall x, p_log (n_p x) = p_log (n_p s) -> p_snap (n_p x) = p_snap (n_p s) -> p_term (n_p x) = p_term (n_p s) -> premI x.
+
+    Lemma postI_handle_follower s m :
+      iS s -> n_msgs s = [] -> n_role s = Follower -> p_log (n_p s) = p_log (n_p s0r) -> m_body m = InstallSnap li lt cf ->
+      premIx s -> ~ strongS s -> n_commit s = n_commit s0r -> postI (handle_follower s m).
+    Proof.
+      intros IS Hm Hr Hl Hb Hp Hns Hcm0. unfold handle_follower. rewrite Hb.
+      eapply postI_bindQ; [apply postSQ_follower_note_leader; exact IS|].
+      intros s1 I1 [[A1 [A0 [A2 [A3 [A4 [A5 [A6 [A7 A8]]]]]]]] Ac1]. apply postI_handle_snapshot; auto; try congruence.
+      unfold strong in *. rewrite A2. exact Hns.
+    Qed.
+
+    Lemma postI_handle_by_role s m :
+      iS s -> n_msgs s = [] -> p_log (n_p s) = p_log (n_p s0r) -> m_body m = InstallSnap li lt cf -> premIx s ->
+      (n_role s = Leader -> strongS s) -> (n_role s = n_role s0r \/ p_term (n_p s) <> p_term (n_p s0r)) ->
+      n_commit s = n_commit s0r ->
+      postI (handle_by_role s m).
+    Proof.
+      intros I Hm Hl Hb Hp Hs Hd Hcm0. unfold handle_by_role. destruct (n_role s) eqn:Er.
+      - apply postI_handle_follower; auto. intros [X Y]. simpl in *. destruct Hd; congruence.
+      - apply postI_of_postS. apply postS_handle_candidate; auto.
+      - apply postI_of_postS. apply postS_handle_leader; auto. rewrite Hb. exact Logic.I.
+    Qed.
+
+    Lemma postI_handle_msg s m :
+      iS s -> n_msgs s = [] -> p_log (n_p s) = p_log (n_p s0r) -> p_snap (n_p s) = p_snap (n_p s0r) ->
+      n_role s = n_role s0r -> p_term (n_p s) = p_term (n_p s0r) -> n_commit s = n_commit s0r ->
+      m_body m = InstallSnap li lt cf ->
+      (p_term (n_p s0r) <= m_term m ->
+       forall x, p_log (n_p x) = p_log (n_p s0r) -> p_snap (n_p x) = p_snap (n_p s0r) -> p_term (n_p x) = m_term m -> premI x) ->
+      postI (handle_msg s m).
+    Proof.
+      intros IS Hm Hl Hsn Hr Ht Hcm Hb Hpr. unfold handle_msg.
+      match goal with |- postI (if ?c then _ else _) => destruct c end; [apply postI_of_postS; simpl; auto|].
+      match goal with |- postI (if ?c then _ else _) => destruct c end; [apply postI_of_postS; simpl; auto|].
+      eapply postI_bindQ with (Q := fun s1 => samevS s s1 /\ n_commit s1 = n_commit s).
+      - match goal with |- postSQ _ (if ?c then _ else _) => destruct c end;
+          [apply postSQ_do_mut_light; auto; exact Logic.I | apply postSQ_ret; auto using samevS_refl].
+      - intros s1 IS1 [[A1 [A0 [A2 [A3 [A4 [A5 [A6 [A7 A8]]]]]]]] Ac]. pose proof IS1 as [I1 Sh1].
+        match goal with |- postI (if ?c then _ else _) => destruct c end; [apply postI_of_postS; simpl; auto|].
+        destruct (m_term m <? p_term (n_p s1)) eqn:Elt; [apply postI_of_postS; simpl; auto|]. apply N.ltb_ge in Elt.
+        destruct (p_term (n_p s1) <? m_term m) eqn:Egt.
+        + apply N.ltb_lt in Egt. rewrite Hb.
+          destruct (do_mut_cases' (MSaveState (m_from m) (m_term m)) s1) as [E | E]; rewrite E; [| rewrite !bind_ret].
+          { simpl. exists (apply_mut (n_p s1) (MSaveState (m_from m) (m_term m))). split; [reflexivity|]. apply pI_of_pS. split.
+            - destruct I1. constructor; simpl; auto.
+              + right. simpl in *. lia.
+              + simpl in *. lia.
+              + unfold LR. cbv zeta. left. simpl. congruence.
+            - exists (cmS s1). split; [eapply shape_ext; [| | apply N.le_refl | exact Sh1]; reflexivity | unfold cmS; lia]. }
+          apply postI_handle_by_role.
+          * split.
+            -- destruct I1. constructor; simpl; auto.
+               ++ right. simpl in *. lia.
+               ++ intro X. congruence.
+               ++ simpl in *. lia.
+               ++ unfold LR. cbv zeta. left. simpl. congruence.
+               ++ left. rewrite A4, Hm. constructor.
+               ++ apply ext_reset; simpl; [congruence | rewrite A4, Hm; reflexivity | discriminate].
+            -- unfold shp. simpl. eapply shape_ext; [| | apply N.le_refl | exact Sh1]; reflexivity.
+          * simpl. congruence.
+          * simpl. congruence.
+          * exact Hb.
+          * intros x X1 X2 X3. apply Hpr; simpl in *; try congruence; try lia.
+          * simpl. discriminate.
+          * right. simpl. lia.
+          * simpl. congruence.
+        + apply N.ltb_ge in Egt. rewrite bind_ret.
+          apply postI_handle_by_role; auto; try congruence.
+          * intros x X1 X2 X3. apply Hpr; try congruence; try lia.
+          * intro X. split; simpl; congruence.
+          * left. congruence.
+    Qed.
+  End Install.
 End LVS.
 
 (* ---------------------------------------------------------------- the event with a crash point, store with snapshot *)
 Definition premE (C : list entry) (s : node) (ev : event) : Prop :=
   match ev with
-  | EDeliver m => match m_body m with AppEnts pi pt _ oes => premS C (n_p s) pi pt oes | _ => True end
+  | EDeliver m => match m_body m with AppEnts pi pt _ oes => p_term (n_p s) <= m_term m -> premS C (n_p s) pi pt oes | _ => True end
   | _ => True
   end.
 
@@ -1446,4 +1958,70 @@ Proof.
   - pose proof (postS_new_core C s0 (inp_of ev) (boot_of ev) (rt_of ev) (vq_of ev) (lq_of (vn C s)) Hq (dc_of ev) (rsp_of ev) (n_id s) (n_cfg s) p P) as Q.
     destruct (new_core (n_id s) (n_cfg s) p) as [z | |]; simpl in *; try discriminate.
     intro H. inversion H. subst. exact (Hfin _ Q).
+Qed.
+
+(* ---------------------------------------------------------------- delivery of an InstallSnapshot, with a crash after any durable mutation *)
+(* the stand-in: an AppEnts of the same sender and term with prevIndex 0, the entries Cs and leaderCommit li *)
+Definition vmsg (m : msg) (Cs : list entry) (li : N) : msg :=
+  {| m_term := m_term m; m_from := m_from m; m_to := m_to m; m_fromg := m_fromg m; m_tog := m_tog m; m_epoch := m_epoch m;
+     m_body := AppEnts 0 0 li (Some Cs) |}.
+
+(* what the system level has to supply about Cs (the sender's committed prefix) and the receiver's logical log *)
+Definition premV (C : list entry) (v0 : node) (p : pstate) (T : N) (Cs : list entry) (li lt : N) : Prop :=
+  wf_from 1 Cs /\ 1 <= T /\ 1 <= li /\ li <= N.of_nat (length Cs) /\ term_at Cs li lt /\
+  (forall cur, p_snap p = Some cur -> li <= sn_index cur ->
+     exists e e', nth_error (C ++ p_log p) (N.to_nat (sn_index cur - 1)) = Some e /\ nth_error Cs (N.to_nat (sn_index cur - 1)) = Some e' /\
+                  e_term e = e_term e') /\
+  ((N.of_nat (length (C ++ p_log p)) < li \/ exists e, nth_error (C ++ p_log p) (N.to_nat (li - 1)) = Some e /\ e_term e <> lt) ->
+   N.of_nat (length Cs) = li /\
+   exists c, qtrunc v0 v0 0 0 Cs c /\ (c < N.to_nat li)%nat /\ firstn c (C ++ p_log p) = firstn c Cs).
+
+Lemma qtrunc_any v0 sA sB ents c : qtrunc v0 sA 0 0 ents c -> qtrunc v0 sB 0 0 ents c.
+Proof. unfold qtrunc, conflict_at. simpl. auto. Qed.
+
+Theorem install_snapshot_lm_S C s m li lt cf Cs k crashed st s' :
+  base (vn C s) -> shape C (n_p s) (n_commit s) -> m_body m = InstallSnap li lt cf ->
+  (p_term (n_p s) <= m_term m -> premV C (with_budget (settle (vn C s)) k) (n_p s) (m_term m) Cs li lt) ->
+  run_event_crash (settle s) (EDeliver m) k = Ret (crashed, st, s') ->
+  exists C',
+    inv (with_budget (settle (vn C s)) k) (inp_of (EDeliver (vmsg m Cs li))) (boot_of (EDeliver (vmsg m Cs li)))
+        (rt_of (EDeliver (vmsg m Cs li))) (vq_of (EDeliver (vmsg m Cs li))) (lq_of (vn C s))
+        (dc_of (EDeliver (vmsg m Cs li))) (rsp_of (EDeliver (vmsg m Cs li))) (vn C' s') /\
+    shape C' (n_p s') (n_commit s') /\ incl C' (C ++ p_log (n_p s) ++ Cs).
+Proof.
+  intros Hb Hsh Hbody HpV. unfold run_event_crash.
+  set (s0 := with_budget (settle s) k). set (ev := EDeliver (vmsg m Cs li)).
+  assert (Hb0 : base (vn C s0)) by (unfold base in *; simpl; exact Hb).
+  assert (Hsh0 : shp C s0 s0) by (unfold shp, cmS; simpl; rewrite N.min_id; exact Hsh).
+  assert (Hq : forall t, p_term (n_p (vn C s0)) < t -> lq_of (vn C s) (p_log (n_p (vn C s0))) t) by (intros t Ht; split; [reflexivity | exact Ht]).
+  pose proof (iS_start C s0 (inp_of ev) (boot_of ev) (rt_of ev) (vq_of ev) (lq_of (vn C s)) (dc_of ev) (rsp_of ev) Hb0 Hsh0 eq_refl) as I0.
+  assert (Hpr : p_term (n_p s0) <= m_term m -> forall x, p_log (n_p x) = p_log (n_p s0) -> p_snap (n_p x) = p_snap (n_p s0) -> p_term (n_p x) = m_term m ->
+                  premI C s0 (inp_of ev) (rt_of ev) (dc_of ev) Cs li lt x).
+  { intros X0 x X1 X2 X3. destruct (HpV X0) as [Hwe [HT [Hli [Hlen [Hlt [Pst Pdisc]]]]]]. unfold premI. simpl p_log in X1. simpl p_snap in X2. rewrite X1, X2, X3.
+    split; [reflexivity|]. split.
+    { intros j e Hj. unfold rt_of, ev, vmsg. simpl. right. exists Cs, j, e. auto. }
+    split; [exact Hwe|]. split; [exact HT|]. split; [reflexivity|]. split; [exact Hli|]. split; [exact Hlen|]. split; [exact Hlt|].
+    split.
+    - intros cur Hc Hle. destruct (Pst cur Hc Hle) as [e [e' [E1 [E2 E3]]]]. right. exists e. split; [exact E1|].
+      rewrite E3. unfold rt_of, ev, vmsg. simpl. right. exists Cs, (N.to_nat (sn_index cur - 1)), e'. repeat split; auto.
+      pose proof (shape_phys _ _ _ Hsh). destruct Hsh as [_ Sx]. rewrite Hc in Sx. lia.
+    - intro Hcase. destruct (Pdisc Hcase) as [A [c [Q [B D]]]]. split; [exact A|]. exists c. split; [| split; [exact B | exact D]].
+      eapply qtrunc_any. exact Q. }
+  assert (HX1 : incl (C ++ p_log (n_p s0)) (C ++ p_log (n_p s) ++ Cs)).
+  { intros x Hx. simpl in Hx. rewrite app_assoc. apply in_or_app. left. exact Hx. }
+  assert (HX2 : incl Cs (C ++ p_log (n_p s) ++ Cs)).
+  { intros x Hx. rewrite app_assoc. apply in_or_app. right. exact Hx. }
+  pose proof (postI_handle_msg C s0 (inp_of ev) (boot_of ev) (rt_of ev) (vq_of ev) (lq_of (vn C s)) Hq (dc_of ev) (rsp_of ev)
+                (C ++ p_log (n_p s) ++ Cs) HX1 Cs li lt cf HX2
+                s0 m I0 eq_refl eq_refl eq_refl eq_refl eq_refl eq_refl Hbody Hpr) as P.
+  simpl run_event. unfold wrap0.
+  destruct (handle_msg s0 m) as [x | c | p]; simpl in *; try discriminate.
+  - intro H. inversion H. subst. destruct P as [C' [Ix [Sx Hix]]]. exists C'. split; [| split; [exact Sx | exact Hix]].
+    eapply inv_vol; [exact Ix | | | | | | |]; reflexivity.
+  - destruct P as [p' [Heq PI]].
+    destruct (new_core (n_id s) (n_cfg s) p) as [z | |] eqn:En; simpl; try discriminate.
+    intro H. inversion H. subst. rewrite (Heq (n_id s) (n_cfg s)) in En.
+    destruct (postI_new_core C s0 (inp_of ev) (boot_of ev) (rt_of ev) (vq_of ev) (lq_of (vn C s)) Hq (dc_of ev) (rsp_of ev)
+                (C ++ p_log (n_p s) ++ Cs) (n_id s) (n_cfg s) p' s' PI En) as [C' [Iz [Sz Hiz]]].
+    exists C'. split; [exact Iz | split; [exact Sz | exact Hiz]].
 Qed.
